@@ -90,9 +90,26 @@ where
         }
         y.longterm_bundles
             .entry(id)
-            .and_modify(|bundles| bundles.push(key_bundle.clone()))
+            .and_modify(|bundles| {
+                // Registering the same bundle again does not change the registry.
+                if !bundles.contains(&key_bundle) {
+                    bundles.push(key_bundle.clone())
+                }
+            })
             .or_insert(vec![key_bundle]);
         Ok(y)
+    }
+
+    /// Returns `true` if exactly this long-term pre-key bundle was already registered for the
+    /// given member.
+    pub fn has_longterm_bundle(
+        y: &KeyRegistryState<ID>,
+        id: &ID,
+        key_bundle: &LongTermKeyBundle,
+    ) -> bool {
+        y.longterm_bundles
+            .get(id)
+            .is_some_and(|bundles| bundles.contains(key_bundle))
     }
 
     #[cfg(test)]
